@@ -5,17 +5,24 @@ import random
 VARS = ["a", "b", "c", "d"]
 LITS = ["'s1'", "'s2'", "'lit'", '"q"']
 CALLEES = ["g", "h"]
+METHODS = ["trim", "concat", "substring", "replace", "toUpperCase", "slice", "foo", "push", "call"]
 
 
 def expr(rng, depth):
     r = rng.random()
-    if depth <= 0 or r < 0.28:
+    if depth <= 0 or r < 0.25:
         return rng.choice(VARS + LITS)
-    if r < 0.72:
+    if r < 0.60:
         l, rr = operand(rng, depth - 1, "l"), operand(rng, depth - 1, "r")
         return "%s + %s" % (l, rr)
-    if r < 0.80:
+    if r < 0.66:
         return "(%s)" % expr(rng, depth - 1)
+    if r < 0.86:
+        # a method call with one argument; a sum as receiver needs parentheses
+        recv = expr(rng, depth - 1)
+        if is_sum(recv):
+            recv = "(%s)" % recv
+        return "%s.%s(%s)" % (recv, rng.choice(METHODS), expr(rng, depth - 1))
     callee = rng.choice(CALLEES) if rng.random() < 0.75 else "%s(%s)" % (rng.choice(CALLEES), expr(rng, depth - 2))
     return "%s(%s)" % (callee, expr(rng, depth - 1))
 
